@@ -153,7 +153,7 @@ def tsan(drv, seed, scale=0.03):
     return extra, viol, inc
 
 
-def cachegrind_scaling(drv, n_small=4000, factor=4, step=1):
+def cachegrind_scaling(drv, n_small=4000, factor=4, step=1, deep=False):
     """Instruction counts of the plain release build on p(n) and p(factor*n): deterministic and
     independent of machine load. Super-linear growth is a violation."""
     t0 = time.time()
@@ -187,11 +187,14 @@ def cachegrind_scaling(drv, n_small=4000, factor=4, step=1):
     def fam(i):
         out = []
         name = "?"
-        for n in (n_small, n_small * factor):
+        for n in (n_small, n_small * factor) + ((n_small * factor * factor,) if deep else ()):
             path = os.path.join(work, "f%d_%d.sas" % (i, n))
             q = subprocess.run([bins["rel"], "family", "--idx", str(i), "--n", str(n), "--out", path], stdout=subprocess.PIPE, text=True, env=drv.ENV)
             name = q.stdout.strip()
             size = os.path.getsize(path)
+            if size > (3 << 20):
+                os.remove(path)
+                break
             out.append((n, size, irefs(path)))
             os.remove(path)
         return i, name, out
@@ -201,19 +204,19 @@ def cachegrind_scaling(drv, n_small=4000, factor=4, step=1):
     worst = 0.0
     table = []
     for i, name, out in res:
-        (n1, s1, i1), (n2, s2, i2) = out
-        if i1 is None or i2 is None:
+        if any(x[2] is None for x in out):
             inc.append("cachegrind failed on family %s" % name)
             continue
-        a, b = max(i1 - base, 1), max(i2 - base, 1)
-        ratio = b / a
-        growth = s2 / max(s1, 1)
-        worst = max(worst, ratio / growth)
-        table.append({"family": name, "bytes": [s1, s2], "instructions": [a, b], "ratio": round(ratio, 2)})
-        if ratio > growth * 1.5:
-            viol.append(("rel-plain", _viol("C01.superlinear|instructions|family:%s" % name, "C01.superlinear",
-                                            "executed instructions grew %.1fx when the input grew %.1fx (family %s, %d -> %d bytes)" % (ratio, growth, name, s1, s2),
-                                            ["family %s" % name])))
+        for (n1, s1, i1), (n2, s2, i2) in zip(out, out[1:]):
+            a, b = max(i1 - base, 1), max(i2 - base, 1)
+            ratio = b / a
+            growth = s2 / max(s1, 1)
+            worst = max(worst, ratio / growth)
+            table.append({"family": name, "bytes": [s1, s2], "instructions": [a, b], "ratio": round(ratio, 2)})
+            if ratio > growth * 1.5:
+                viol.append(("rel-plain", _viol("C01.superlinear|instructions|family:%s" % name, "C01.superlinear",
+                                                "executed instructions grew %.1fx when the input grew %.1fx (family %s, %d -> %d bytes)" % (ratio, growth, name, s1, s2),
+                                                ["family %s" % name])))
     extra["instruction_scaling"] = {"tool": "valgrind --tool=cachegrind (I refs, startup baseline subtracted)", "families": len(table),
                                     "worst_ratio_over_input_growth": round(worst, 3), "samples": sorted(table, key=lambda t: -t["ratio"])[:6],
                                     "wall_s": round(time.time() - t0, 1)}
